@@ -505,6 +505,9 @@ func (s *ctlSys) Apply(ev verifrt.Event) {
 		sl := s.u.Slots[ev.A]
 		s.store.Remove("Service", sl.NS, sl.Name)
 		s.svcQ.Add(sl.Key())
+		// a Service created later under this name is another Service: the reference point no longer speaks about it
+		delete(s.refStatuses, sl.Key())
+		delete(s.refSvcs, sl.Key())
 	case "layout":
 		s.lastUserDesc = "layout"
 		s.setLayoutObjects(ev.A)
